@@ -30,7 +30,7 @@ def call_family(P, e, x):
 
 
 def replay_values(rec, ctx, np, P):
-    e = PL.decode(rec)
+    e = PL.decode(rec, guard=True)
     fam, n = e['fam'], e['n']
     xs = np.array([float(p) for p in e['pts']])
     want = np.array([float(v) for v in e['vals']])
@@ -118,8 +118,19 @@ def run(ctx, replay=None, selftest=False):
             replay_values(rec, ctx, np, P)
         return
     recs = PL.run_spec(ctx, ctx.tier, maxn)
+    from . import modq as _mq
+    beyond = 0
     for rec in recs:
-        replay_values(rec, ctx, np, P)
+        try:
+            replay_values(rec, ctx, np, P)
+        except _mq.Unreconstructable:
+            # the exact value has more than 124 bits in numerator or denominator: outside what 16 primes can carry back to a rational.
+            # TLC has still checked the laws for this state; only the value comparison against prysm is not made
+            beyond += 1
+    if beyond:
+        ctx.notes.append('%d of %d emitted states carry values beyond the reconstruction bound of the residue carrier and were not compared with prysm' % (beyond, len(recs)))
+        if beyond * 3 > len(recs):
+            raise core.Machinery('%d of %d emitted states are beyond the reconstruction bound' % (beyond, len(recs)))
     if extra:
         extra.run_c07(ctx, np, P)
     if selftest:
